@@ -16,7 +16,7 @@ Inductive srow := SR (a v waiters : nat).
 
 Inductive sitem :=
 | I (i : item)
-| Snap (tr : list trow) (sems : list srow)
+| Snap (tr : list trow) (sems : list srow) (locked : bool) (lockw : nat)
 | SnapSame.   (* the snapshot taken here equals the previous one *)
 
 Record dcase := mkCase { k_script : list (list cmd); k_sched : list sitem; k_trace : list ev; k_main_done : bool }.
@@ -48,6 +48,7 @@ Definition ev_eqb (a b : ev) : bool :=
   | ELayer e, ELayer f => lev_eqb e f
   | EConnect x, EConnect y | ERead x, ERead y | EWrite x, EWrite y | EEof x, EEof y | EClose x, EClose y => Nat.eqb x y
   | ECrash, ECrash => true
+  | EDrainWait x, EDrainWait y => Nat.eqb x y
   | EDone t k, EDone u j => tid_eqb t u && Nat.eqb k j
   | _, _ => false
   end.
@@ -65,24 +66,26 @@ Fixpoint entries (l : list conn) (i : nat) : list trow :=
 Definition tr_eqb (a b : trow) : bool :=
   match a, b with TR c w k, TR c' w' k' => Nat.eqb c c' && Bool.eqb w w' && Bool.eqb k k' end.
 
-Definition snap_ok (s : st) (tr : list trow) (sems : list srow) : bool :=
+Definition snap_ok (s : st) (tr : list trow) (sems : list srow) (lk : bool) (lw : nat) : bool :=
+  Bool.eqb (dlocked s) lk && Nat.eqb (length (dlockq s)) lw &&
   list_eqb tr_eqb (entries (conns s) 0) tr &&
   forallb (fun x => match x with SR a v w => Nat.eqb (semval s a) v && Nat.eqb (length (semq s a)) w end) sems.
 
-Definition snapshot := (list trow * list srow)%type.
+Definition snapshot := (list trow * list srow * (bool * nat))%type.
 
 Fixpoint replay (s : st) (last : snapshot) (l : list sitem) : option st :=
   match l with
   | [] => Some s
   | I i :: l' => match step s i with Some s' => replay s' last l' | None => None end
-  | Snap tr sems :: l' => if snap_ok s tr sems then replay s (tr, sems) l' else None
-  | SnapSame :: l' => if snap_ok s (fst last) (snd last) then replay s last l' else None
+  | Snap tr sems lk lw :: l' => if snap_ok s tr sems lk lw then replay s (tr, sems, (lk, lw)) l' else None
+  | SnapSame :: l' =>
+    if snap_ok s (fst (fst last)) (snd (fst last)) (fst (snd last)) (snd (snd last)) then replay s last l' else None
   end.
 
 Definition main_done (s : st) : bool := match mainpc s with MDone _ => true | _ => false end.
 
 Definition check_dcase (c : dcase) : bool :=
-  match replay (init (k_script c)) ([], []) (k_sched c) with
+  match replay (init (k_script c)) ([], [], (false, 0)) (k_sched c) with
   | None => false
   | Some s => list_eqb ev_eqb (rev (trace s)) (k_trace c) && Bool.eqb (main_done s) (k_main_done c)
   end.
@@ -159,10 +162,12 @@ Fixpoint psched (f : nat) (l : list nat) : option (list sitem * list nat) :=
     | 5 :: r => match ptid r with Some (t, k :: r') => opt_cons (I (Run t (nb k))) (psched f' r') | _ => None end
     | 6 :: n :: r => match ptrows n r with
                      | Some (tr, m :: r') => match psrows m r' with
-                                             | Some (sm, r'') => opt_cons (Snap tr sm) (psched f' r'')
-                                             | None => None end
+                                             | Some (sm, lk :: lw :: r'') => opt_cons (Snap tr sm (nb lk) lw) (psched f' r'')
+                                             | _ => None end
                      | _ => None end
     | 7 :: r => opt_cons SnapSame (psched f' r)
+    | 8 :: c :: r => opt_cons (I (ACongest c)) (psched f' r)
+    | 9 :: c :: x :: r => opt_cons (I (ADrainDone c (nb x))) (psched f' r)
     | x :: r => if Nat.eqb x END then Some ([], r) else None
     | [] => None
     end
@@ -186,6 +191,7 @@ Fixpoint ptrace (f : nat) (l : list nat) : option (list ev * list nat) :=
     | 10 :: c :: r => opt_cons (EClose c) (ptrace f' r)
     | 11 :: r => opt_cons ECrash (ptrace f' r)
     | 12 :: r => match ptid r with Some (t, k :: r') => opt_cons (EDone t k) (ptrace f' r') | _ => None end
+    | 13 :: d :: r => opt_cons (EDrainWait d) (ptrace f' r)
     | x :: r => if Nat.eqb x END then Some ([], r) else None
     | [] => None
     end
